@@ -94,6 +94,34 @@ CLAIMED.update({
    "the management (legacy) create/delete path is re-enacted by the harness on the real registry and repository; any rejected lookup is accepted",
    DS+"storage-operation interleavings, write-failure and crash injection; interval reference-owner oracle"),
 })
+
+# Additions made while strengthening the scenarios against seeded defects (appended to the claim text).
+ROUND2 = {
+ "C01": "Later additions: a third of the runs add a concurrent keep-alive writer on the same processor (oracle: the decoded sequence is a merge of both writers' sequences), a fifth of the small bodies take the rate-limited chunked write path, and a sixth of the runs go through the product's real WebSocket wrappers (adapter.wsServerConn, adapter.wsClientConn, client/transport.WebSocketStreamConn) on a real gorilla/websocket pair over a simulated byte link, with a peer that frames natively or re-frames the byte stream into messages that split headers and coalesce packets.",
+ "C02": "Later additions: transports whose Read returns data together with an error (last bytes with EOF, transient timeouts with data), a relay world (1/4 of runs) in which each end is an application behind a real iocopy.Bidirectional client relay with or without half-close support, and slow producers.",
+ "C03": "Later additions: phase-2 messages naming an unregistered id answered under a real client's key, and a sixth of the phase-2 messages handled while the node's storage operations fail (an invalid proof must still never be accepted).",
+ "C04": "Later additions: a revoke/deactivate/delete racing an in-flight legitimate open (pure interleaving, a failed write of the mapping record, or a stalled store operation) followed by a canary open; every TunnelOpenRequest invitation the server sends to any client is checked against the named mapping's target, grant and secret.",
+ "C05": "Later additions: a third of the serve runs use a real WebSocket connection (gorilla pair over the simulated link, real wsServerConn with ping loop and read deadline) carrying split/merged binary messages, text, ping/pong, close and eleven kinds of illegal frame, silent peers, and one giant message whose payload is synthesised inside the server's own Read; a retry-storm oracle (more than 16 failed Reads at one simulated instant without a byte) and transient read timeouts on the plain stream.",
+ "C06": "Later additions: 2-4 concurrent code generation requests with a replayable random source (codes pairwise distinct, each stored record still names its requester's target), and a clause that a mapping first written after its code's deadline must not survive.",
+ "C07": "Later additions: a login timed to the very sweep instant that finds the connection silent, and a clause that a connection whose latest handshake made it a control connection and which the control registry no longer holds must have its transport closed.",
+ "C08": "Later additions: handshake-then-close (three close variants) and handshake-then-failover with no pause after the reply and an optional slow store round trip inside the login.",
+ "C09": "Later additions: concurrent rounds that start from lapsed but physically present leftovers (or from still-waiting records), closing sequential lookups, per-round porcupine check from the empty table with the start class in the signature.",
+ "C10": "Later additions: another connection's frames decoded between the stream's partial reads (pooled-buffer aliasing in both directions), local readers that return the last bytes together with EOF, per-node traffic counter configurations.",
+ "C11": "Later additions: a target client on a congested link so that forged answers arrive while the server is still writing the request, and mappings whose listen or target client is 0 (client id 0 is never a party).",
+ "C12": "Later additions: paces of seconds between chunks (beyond any fixed drain timer) with endpoints that expose socket deadlines, and faults on the relay's datagram-side writes (plain error, ECONNREFUSED, ENOBUFS) with a subsequence oracle afterwards.",
+ "C13": "Later additions: a second, Redis-flavoured reference (an emptied list is no key) so that a divergence on an emptied list is attributed to that recorded difference only when Redis answers exactly what this reference expects.",
+ "C14": "Later additions: keys at the boundaries of the configured prefix families (extended, truncated, separator-less, embedded) and twenty further key families that occur in the code base.",
+ "C15": "Later additions: a single slow failing renewal on one holder's store connection and a prober node allocating and releasing every 4-11 s; overlaps are attributed with a per-node log of Delete intervals.",
+ "C16": "Later additions: connections attached to a bridge after an earlier Close followed by the lifecycle's last Close (every connection ever handed over is closed exactly once, blocked peers are released), and resource disposals that take simulated time against drawn DisposeWithTimeout timeouts.",
+ "C17": "Later additions: admitted mapping connections that end abnormally through the real TunnelManager (peer notification, fatal error, CloseTunnel, racing closers) between registration and start, with a clause that the handler's own count equals the connections really open whenever nothing is in flight.",
+ "C19": "Later additions: mappings and clock gaps longer than a month, read faults on the domain index/record, a source-agreement clause (a later legacy claimant must not answer while the repository owner is live), a separate class for two owners admitted by one registry.",
+}
+for _i, _t in ROUND2.items():
+    c = CLAIMED[_i]
+    CLAIMED[_i] = (c[0], c[1], c[2] + " " + _t, c[3], c[4])
+_c = CLAIMED["C01"]
+CLAIMED["C01"] = (_c[0], _c[1], _c[2], "trusts the simnet stream/message Read contracts as models of TCP/QUIC/KCP (WebSocket additionally runs on the real gorilla stack); 16 MiB bodies are rare in the quick tier (a twelfth of the largest size class) and more frequent in thorough", _c[4])
+
 props=[json.loads(l) for l in open('/verif/properties.jsonl')]
 checks=[]
 na=[]
